@@ -17,4 +17,7 @@
              'trusted) over a flag column/element of every unit',
              'EDI release-character handling belongs to the tokenizer (C07); here inputs with escaped '
              'release characters and delimiters are fed through the real reader and every unit must be '
-             'consumed or reported, with its unescaped text']}
+             'consumed or reported, with its unescaped text',
+             'pattern cases: header/footer regular expressions are evaluated per raw line with Go '
+             'regexp.MatchString in the harness (not through the library); the model sees a unit as the bit '
+             'mask of the patterns its line matches (leaf LPat)']}
